@@ -118,7 +118,10 @@ PROPS["C15"] = {
              "equals the snapshot, or adds exactly one key that has the CDI prefix, is a legal k8s annotation key (model.K8sAnnotationKey), "
              "was unused, and whose value parses back (ParseAnnotations) to exactly the devices in order; success iff name valid, devices "
              "all qualified (model.QualifiedName) and key unused. ParseAnnotations on arbitrary maps: CDI keys only, devices = concatenation "
-             "in returned-key order, error with empty results on any unqualified name. Non-trivial iff combined name length in 61..65, "
+             "in returned-key order, error with empty results on any unqualified name; besides values joined from the device list also "
+             "'decorated' values nobody's helper wrote: 1..3 qualified names with blanks / tabs / line ends before, after or around the "
+             "value or a comma, leading / trailing / doubled commas (each must be refused with empty results; alone or next to a good key). "
+             "Non-trivial iff combined name length in 61..65, "
              "or a CDI key pre-exists, or success with >= 2 devices; distinct = distinct cases."),
     "exhaustive_part": "all (plugin, id) with combined length <= 4 over 8 symbols x key used/unused; all lengths 1..70 x all split points",
     "assumptions": ["a request with valid plugin, id, devices and an unused key must succeed (doc comment of UpdateAnnotations)"],
@@ -129,7 +132,7 @@ PROPS["C15"] = {
         "note": "trusted: model/names.go (k8s key and qualified-name recognisers)",
         "technique": "property-based testing: rapid + bounded exhaustive enumeration, round-trip (update then parse) and reference-model oracle",
     },
-    "health": {"quick": {"name-valid": 2000, "name-invalid": 2000, "key-already-used": 500, "init-nil": 1000, "name-len-63": 200, "name-len-64": 200, "slash-in-id": 500}},
+    "health": {"quick": {"name-valid": 2000, "name-invalid": 2000, "key-already-used": 500, "init-nil": 1000, "name-len-63": 200, "name-len-64": 200, "slash-in-id": 500, "decorated:leading": 1000, "decorated:trailing": 1000, "decorated:after-comma": 1000}},
     "units": [
         {"name": "regress", "mode": "plain", "run": "TestC15Regress"},
         {"name": "exhaustive", "mode": "plain", "run": "TestC15Exhaustive", "shards": 4},
@@ -173,7 +176,7 @@ PROPS["C01"] = {
     "rule": ("rapid state machine. Initial state: a generated layout - a list of 0..4 directory slots over a pool of 4 directories (missing, "
              "repeated, other spellings of the same path), each existing directory holding 0..4 entries among valid Spec files (.json/.yaml, "
              "kinds from 3 vendors x 2 classes, 1..3 devices out of 3 names, each device carrying a marker naming its file), invalid Spec "
-             "files (syntax, semantic, empty), non-Spec names (x.txt, x.yml, x.json.bak, ...), subdirectories (also named sub.json) holding "
+             "files (syntax, semantic, empty), non-Spec names (x.txt, x.yml, x.json.bak, ...), named pipes and sockets under non-Spec names that sort before, between and after the Spec files, subdirectories (also named sub.json) holding "
              "valid Specs; half of the layouts get a scenario overlay for one name (shadowed, conflict at top, conflict below a unique "
              "higher definition, three-way, only-invalid on top, conflicts on both levels). Actions: put valid / invalid / ignored-name "
              "file (new or overwrite), remove file, remove directory, create missing directory; after every action Refresh() on the same "
@@ -336,7 +339,8 @@ PROPS["C16"] = {
     "rule": ("(valid Spec, transient id, name generator, extension, directory list, pre-existing content) drawn by rapid. Specs over vendors with "
              "dots and classes ending in .json/.yaml (gpu.json, x.yaml, y.yaml.json); ids from a list of 30 path-hostile strings ('/', '..', "
              "'../../x', leading dots, .json/.yaml suffixes, NUL, newline, backslash) and the hostile string generator incl. 300-byte ids and ids sized so that the final file name is 236..256 bytes long; all "
-             "four Generate* functions, with '', .json or .yaml appended; 1..3 directories, the last one existing / missing / nested-missing; "
+             "four Generate* functions, with '', .json or .yaml appended; 1..3 directories, the last one existing / missing / nested-missing, "
+             "in one case of three also listed first (same or another spelling) with the other directories in between; "
              "pre-existing: the same devices in a lower directory, a file already at the target, the same stem with the other extension, an "
              "unrelated Spec, plus bystander files outside the Spec directories. Oracle: (1) the generated name is a single path component; "
              "(2) snapshot of the whole sandbox tree (type, size, SHA-256) around WriteSpec - on success only the target in the last directory "
@@ -458,7 +462,7 @@ PROPS["C19"] = {
              "ignored entries, shadowing and conflicts; Specs carry hooks, device nodes, mounts, GIDs, RDT) "
              "is passed as '-d a,b' or as repeated --spec-dirs, with --schema builtin / none / default; 1..3 drawn sub-commands per layout "
              "among devices, devices -v -o json|yaml, vendors, classes, specs, dirs, validate, inject <oci file json|yaml> <1..3 glob "
-             "patterns> -o json|yaml. Oracle (differential): an in-process cache with default options over the same directories with the "
+             "patterns, incl. backslash escapes and character classes> -o json|yaml. Oracle (differential): an in-process cache with default options over the same directories with the "
              "same Spec validator installed. If it reports errors: the command must exit non-zero and the set of 'Spec file <path>:' "
              "lines must equal the error keys. Otherwise exit 0 and the parsed output equals ListDevices / GetDevice definitions and "
              "paths / ListVendors with Spec counts / ListClasses / Spec file paths / directories with priorities; inject output parsed "
